@@ -204,25 +204,49 @@ Section C11.
     J (fold_left (fun e o => fst (step safe overlaps e o)) ops (boot safe (init n outs0))).
   Proof. apply (invariant_by_prims safe overlaps J J_prim). apply J_boot. Qed.
 
-  (* requesting a command cancels the older one: after _cancel_command of a UOD request its instance is gone or
-     marked cancelled (and a cancelled instance is never executed again: exec_uod finalizes it instead) *)
+  (* requesting a command cancels the older one: after _cancel_command of a UOD request, the instance that request
+     started -- if it is still registered -- is marked cancelled (and a cancelled instance is never executed again:
+     exec_uod finalizes it instead); an instance of another request is left alone *)
+  Lemma find_u_mark_done x m r k : find_u (fst (mark_done x m r)) k = find_u x k.
+  Proof. unfold mark_done. destruct (existsb _ _); [|reflexivity]. destruct m as [[a d]|]; reflexivity. Qed.
+
+  Lemma find_u_cancel_unstarted e m r k : find_u (fst (cancel_unstarted e m r)) k = find_u e k.
+  Proof.
+    unfold cancel_unstarted. pose proof (find_u_mark_done e m r k) as K. destruct (mark_done e m r) as [e1 m1]. cbn [fst] in K.
+    destruct (mark_cancelled_raises (tk e1 m1) r); cbn [fst]; [exact K|]. now rewrite find_u_note_cancel_m.
+  Qed.
+
   Lemma cancel_request_effect e m r k : r_name r = CU k ->
     match find_u (fst (cancel_request e m r)) k with
     | None => True
-    | Some c => c_cancelled c = true
+    | Some c => c_id c = r_id r -> c_cancelled c = true
     end.
   Proof.
     intros Hr. unfold cancel_request. rewrite Hr. destruct (find_u e k) as [c|] eqn:F.
-    - pose proof (find_u_name _ _ _ F) as Hn.
-      assert (MD : forall x, find_u (fst (mark_done x m r)) k = find_u x k).
-      { intros x. unfold mark_done. destruct (existsb _ _); [|reflexivity]. destruct m as [[a d]|]; reflexivity. }
-      destruct (c_complete c).
-      + rewrite MD. unfold fin_u. rewrite Hn. now rewrite find_u_drop_same.
-      + destruct (mark_cancelled_raises (tk e m) r); cbn [fst].
-        * assert (Q : forall c', c_name c' = k -> find_u (put_u e c') k = Some c').
-          { intros c' Hc'. rewrite <- Hc'. apply (find_u_put e c c'). now rewrite Hc'. }
-          rewrite Q; [reflexivity|exact Hn].
-        * rewrite MD. unfold fin_u. rewrite Hn. now rewrite find_u_drop_same.
-    - cbn [fst]. now rewrite F.
+    - destruct (Nat.eqb (c_id c) (r_id r)) eqn:Eid.
+      + pose proof (find_u_name _ _ _ F) as Hn.
+        destruct (c_complete c).
+        * rewrite find_u_mark_done. unfold fin_u. rewrite Hn. now rewrite find_u_drop_same.
+        * destruct (mark_cancelled_raises (tk e m) r); cbn [fst].
+          -- assert (Q : forall c', c_name c' = k -> find_u (put_u e c') k = Some c').
+             { intros c' Hc'. rewrite <- Hc'. apply (find_u_put e c c'). now rewrite Hc'. }
+             rewrite Q; [reflexivity|exact Hn].
+          -- rewrite find_u_mark_done. unfold fin_u. rewrite Hn. now rewrite find_u_drop_same.
+      + rewrite find_u_cancel_unstarted, F. intros K. apply Nat.eqb_neq in Eid. contradiction.
+    - rewrite find_u_cancel_unstarted, F. exact I.
+  Qed.
+
+  (* a request that has not started an instance is done once cancelled: it never starts one *)
+  Lemma cancel_unstarted_done e m r :
+    existsb (fun x => Nat.eqb (r_id x) (r_id r)) (m_exe e m) = true ->
+    memn (r_id r) (m_done (fst (cancel_unstarted e m r)) (snd (cancel_unstarted e m r))) = true.
+  Proof.
+    intros H. unfold cancel_unstarted, mark_done. rewrite H.
+    assert (M : forall d, memn (r_id r) (if memn (r_id r) d then d else r_id r :: d) = true).
+    { intros d. destruct (memn (r_id r) d) eqn:E; [exact E|]. unfold memn. cbn [existsb]. now rewrite Nat.eqb_refl. }
+    destruct m as [[x d]|].
+    - destruct (mark_cancelled_raises _ r); cbn [fst snd m_done]; apply M.
+    - destruct (mark_cancelled_raises _ r); cbn [fst snd m_done note_cancel_m]; [apply M|].
+      unfold note_cancel. destruct (r_name r) as [[]|]; try apply M; destruct (trk _); apply M.
   Qed.
 End C11.
